@@ -27,7 +27,7 @@ import tskit
 
 from lib import gen
 from lib.harness import case_rng
-from lib.model import NODE_IS_SAMPLE, NULL, RowModel, forest, mutation_parents
+from lib.model import NULL, forest, mutation_parents
 from lib.tsk import from_tables, to_tables
 
 ID = "C14"
